@@ -503,7 +503,7 @@ func c08Mix(seed int64) int64 {
 // same first-time add / the same origin through several neighbours / different origins (one
 // possible outcome: the case goes on with a withdraw and lookups), or conflicting add / remove /
 // disconnect / cleanup (several admissible outcomes: the case ends there).
-func c08GenRace(w *bufio.Writer, r *rng) {
+func c08GenRace(w *bufio.Writer, r *rng, kind int) {
 	fmt.Fprintln(w, "reset 1")
 	pfx := []string{"c0a83200 24 32", "0a000000 8 32", "0a010203 8 32", "20010db8000000000000000000000000 32 128"}
 	p := pfx[r.intn(len(pfx))]
@@ -511,7 +511,7 @@ func c08GenRace(w *bufio.Writer, r *rng) {
 		fmt.Fprintf(w, "add %s %d %d %d 1 %d\n", pfx[r.intn(len(pfx))], 2+r.intn(3), 6+r.intn(3), r.intn(5), 6+r.intn(3))
 	}
 	o := 2 + r.intn(3)
-	switch r.intn(5) {
+	switch kind % 5 {
 	case 0: // the same advertisement, first time, n goroutines
 		fmt.Fprintf(w, "race %d | add %s %d %d %d 1 %d\n", r.pick(2, 4, 8), p, 2+r.intn(3), o, 1+r.intn(5), o)
 	case 1: // one origin through several neighbours with different hop counts
@@ -574,7 +574,7 @@ func c08GenTies(w *bufio.Writer, r *rng, n int) {
 // c08GenRaceCleanup: stale-route cleanup racing with the writers that reshuffle a slice holding a
 // stale remote route in front of a local one (withdraw, peer disconnect, a re-sorting add): in every
 // serial order only the stale remote route goes and the local one stays.
-func c08GenRaceCleanup(w *bufio.Writer, r *rng) {
+func c08GenRaceCleanup(w *bufio.Writer, r *rng, kind int) {
 	p := r.pickS("c0a83200 24 32", "0a000000 8 32", "20010db8000000000000000000000000 32 128")
 	fmt.Fprintln(w, "reset 1")
 	n := 1 + r.intn(3)
@@ -586,7 +586,7 @@ func c08GenRaceCleanup(w *bufio.Writer, r *rng) {
 		fmt.Fprintf(w, "add ac%02x%02x00 24 32 3 %d 1 1 %d\n", i/256+16, i%256, 5+i%3, 5+i%3)
 	}
 	fmt.Fprintln(w, "age 3")
-	switch r.intn(3) {
+	switch kind % 3 {
 	case 0:
 		fmt.Fprintf(w, "race 1 | clean 1 | rm %s 2\n", p)
 	case 1:
@@ -600,7 +600,7 @@ func c08GenRaceCleanup(w *bufio.Writer, r *rng) {
 func c08Gen(w *bufio.Writer, seed int64, tier string) {
 	r := newRng(c08Mix(seed))
 	for c := 0; c < 4; c++ {
-		c08GenRaceCleanup(w, r)
+		c08GenRaceCleanup(w, r, c)
 	}
 	ties := 2
 	if tier == "thorough" {
@@ -616,7 +616,7 @@ func c08Gen(w *bufio.Writer, seed int64, tier string) {
 		races = 60
 	}
 	for c := 0; c < races; c++ {
-		c08GenRace(w, r)
+		c08GenRace(w, r, c)
 	}
 	cases, nops := 200, 40
 	if tier == "thorough" {
